@@ -53,6 +53,9 @@ def _is_name_of(CE, nf, what):
     return bool(roots) and (what + ".rust_type" in text or what + ")" in text or text.count(what) > 0) and all(r in what or what.startswith(r) or r.startswith(what.split(".")[0].split("(")[-1]) for r in roots)
 
 
+NAME_PLUMBING = {"ok_or", "ok_or_else", "to_string", "to_owned", "into", "from", "as_str", "unwrap_or_default", "map_err", "clone", "Some", "Ok", "as_ref", "as_deref"}
+
+
 def rule_absent_is_default(ck, F, CE, rule="R6"):
     """Which operations get envelopes may depend on `style` only in a way that takes an absent attribute for its default: a test
     that compares what was read (None when absent) with the default value itself treats `no style` and `style="document"` differently,
@@ -257,6 +260,32 @@ def run(ck, F):
     (ck.ok if okb else ck.violation)("R4", "binding-loop", bnd_calls[0].site if bnd_calls else "-",
                                      "binding emitter: input envelope for every element of self.operations, unconditional" if okb else
                                      f"binding emitter iterates {sorted(map(str, bl))}", fn="SoapBinding::write_xml")
+    # the client type is named after the service: PascalCase of the service's `name` attribute, whatever else the document holds (a
+    # name that is changed when some other component happens to be called alike is not the service's name any more)
+    stored = next((s_[3] for s_ in og.field_summaries(F, "service::SoapService") if not s_[0].endswith("tests")), {})
+    svc_types = [e for e in X.events.get(SERVICE, []) if e.kind == "emit" and re.match(r"^\s*(pub struct|impl) \{\} \{", e.skeleton()) and e.holes()]
+    for e in svc_types:
+        what = "struct" if "struct" in e.skeleton() else "impl"
+        h0 = CE.expand(e.holes()[0][0])
+        names, root = og.spine(h0)
+        full = h0
+        if root[0] == "field" and root[1] == ("param", "self") and root[2] in stored:
+            # a member of the service value stands for what the reader stored in it
+            full = CE.expand(stored[root[2]])
+            names2, root = og.spine(full)
+            names = names + names2
+        chain = [x for x in names if x in og.SANITISERS]
+        rest = [x for x in names if x not in og.SANITISERS and x not in NAME_PLUMBING and not x.startswith("<")]
+        def has_format(n):
+            return isinstance(n, tuple) and (n[:1] == ("format",) or any(has_format(x) for x in n))
+        reads_name = not has_format(h0) and not has_format(full) and rest == ["attribute"] and any(str(c_[1]).rsplit("::", 1)[-1] == "attribute" and len(c_[2]) == 2 and c_[2][1] == ("lit", "name") for c_ in og.nf_calls(full))
+        if "to_pascal_case" in chain and reads_name:
+            ck.ok("R4", f"service:type-name:{what}", e.site, f"client {what}: named {og.nf_str(h0)[:80]} (PascalCase of the service's name attribute)", fn="service")
+        else:
+            ck.violation("R4", f"service:type-name:{what}", e.site,
+                         f"the client {what} is named {og.nf_str(h0)[:100]} (from {og.nf_str(root)[:100]}): not the PascalCase form of the service's `name` attribute and "
+                         f"nothing else — the client type is no longer named after the WSDL service for some documents", fn="service")
+    ck.floor("R4", "client type templates (struct, impl)", len(svc_types), 2)
     stream = [e for e in T.inline(X, T.ROOT) if e.kind == "emit"]
     for fn in OP_EMITTERS:
         sigs_local = [e for e in X.events.get(fn, []) if e.kind == "emit" and re.match(r"^\s*pub async fn \{\}\(", e.skeleton())]
